@@ -166,8 +166,12 @@ def rand_num_wide(rng, n, allow_implicit, max_zeros=50):
     return ("0" * z) + str(n)
 
 
+HUGE = [10 ** 4000 + 3, 10 ** 4000 + 4, 7 * 10 ** 4100]      # 4001-4101 digits: with a zero run of 50 still below CPython's 4300-digit int() limit
+
+
 def wide_int(rng):
     k = rng.random()
+    if k < 0.004: return rng.choice(HUGE)
     if k < 0.55: return rng.choice(SMALL)
     if k < 0.75: return rng.choice(BIG_WIDE)
     if k < 0.9: return rng.randrange(10 ** rng.choice([1, 2, 5, 12, 19, 20, 30]))
@@ -220,6 +224,9 @@ def neighbours_wide(rng, v):
         out.append(replace(v, local=tuple(l + [rand_local_seg(rng)])))
         if len(l) > 1: out.append(replace(v, local=tuple(l[:-1])))
         out.append(replace(v, local=tuple(l[:i] + [perturb_seg(rng, l[i])])))
+        for _ in range(2):      # another segment of any kind in the same position: small vs big integers, integer vs token
+            out.append(replace(v, local=tuple(l[:i] + [rand_local_seg(rng)] + l[i + 1:])))
+        out.append(replace(v, local=tuple(l[:i] + [rng.choice(BIG_WIDE)] + l[i + 1:])))
     else:
         out.append(replace(v, local=(rand_local_seg(rng),)))
     r = list(v.release); i = rng.randrange(len(r)); r[i] += 1
